@@ -16,6 +16,8 @@ type extraCfg struct {
 	seed    int64
 	chain   int  // minimal chain length before certification starts
 	change  bool // a validator change precedes the certified heights
+	rounds  int  // certification rounds (default 3)
+	single  bool // only the highest certifiable height per round
 }
 
 // exhaustiveSubsets runs, without the model, every non-empty signer subset for several certifiable
@@ -44,7 +46,11 @@ func exhaustiveSubsets(c extraCfg) (evals int, fails []corr.Fail, note string) {
 		run(fmt.Sprintf("extend %d", 3*c.nv))
 	}
 	p.grow(3)
-	for round := 0; round < 3; round++ {
+	rounds := c.rounds
+	if rounds == 0 {
+		rounds = 3
+	}
+	for round := 0; round < rounds; round++ {
 		_, mhpc, mhc := p.heights()
 		top := p.certifiableTop()
 		if top <= mhc {
@@ -56,7 +62,7 @@ func exhaustiveSubsets(c extraCfg) (evals int, fails []corr.Fail, note string) {
 		if mhpc > 100 && low < mhpc-100 {
 			low = mhpc - 100 // older commits are not accepted by the gossip validator (COMMIT_RANGE_STORED)
 		}
-		if low < top {
+		if low < top && !c.single {
 			targets = append(targets, low)
 		}
 		for _, h := range targets {
@@ -135,6 +141,13 @@ func (prop) Extra(rng *rand.Rand, tier string) corr.ExtraResult {
 		}
 	}
 	cfgs = append(cfgs, extraCfg{nv: 4, weights: []int{1, 1, 1, 1}, thr: 3, seed: rng.Int63n(1 << 30), chain: 104})
+	// 8 validators: the bitmap is exactly one full byte (all 255 subsets)
+	eight := extraCfg{nv: 8, weights: []int{1, 1, 1, 1, 1, 1, 1, 1}, thr: 6, seed: rng.Int63n(1 << 30), rounds: 1, single: true}
+	if tier == "thorough" {
+		eight.rounds, eight.single = 2, false
+		cfgs = append(cfgs, extraCfg{nv: 8, weights: []int{2, 1, 3, 1, 1, 2, 1, 1}, thr: 9, seed: rng.Int63n(1 << 30), rounds: 1, change: true})
+	}
+	cfgs = append(cfgs, eight)
 	if tier == "thorough" {
 		cfgs = append(cfgs, extraCfg{nv: 5, weights: []int{2, 1, 1, 3, 1}, thr: 6, seed: rng.Int63n(1 << 30), chain: 120, change: true})
 	}
